@@ -1,4 +1,18 @@
 #pragma once
 #include "c07x_pt.h"
 #include "c07x_ep2_state.h"
-int g_d2_cp_calls, g_d2_cp_ok;
+int g_d2_cp_calls, g_d2_cp_ok, g_d2_bits_calls, g_d2_bits_ok; size_t g_d2_bits;
+#if defined(VC_CUSTOM_LONGJMP) && defined(VC_C07X_FBR)
+/* exceptional exit of fb_read_bin: the abstract callees never jump, so every jump is an error raised by fb_read_bin itself: the wrong
+   length (before anything is decoded) or a decoded integer longer than the field degree (before the output is written) */
+void longjmp(jmp_buf env, int val) {
+	(void)env; (void)val;
+	__CPROVER_assert(g_may_throw, "throw only where the contract under proof admits an error exit");
+	__CPROVER_assert(g_ctx.code == RLC_ERR, "error exit: the error code is set");
+	__CPROVER_assert(g_d2_len != RLC_FB_BYTES ? g_d2_rcalls == 0 : (g_d2_rcalls == 1 && g_d2_bits_calls == 1 && g_d2_bits_ok == 1 && g_d2_bits > RLC_FB_BITS),
+		"error exit: only for a wrong length or a decoded integer longer than the field degree");
+	__CPROVER_assert(g_d2_cp_calls == 0, "error exit: before the output is written");
+	g_thrown = 1;
+	__CPROVER_assume(0);
+}
+#endif
